@@ -22,8 +22,10 @@ package main
 import (
 	"fmt"
 	"os"
+	"os/exec"
 	"sort"
 	"sync/atomic"
+	"syscall"
 	"time"
 
 	"verif/vf"
@@ -40,6 +42,9 @@ func run(c *vf.Ctx) {
 		"every unmodified seed x all 18 combinations, every truncation x all 3 reader behaviours (buffer size round-robin by offset), substitutions / rewrites / short strings one combination each, assigned round-robin; a drained body is read twice more after EOF/error; " +
 		"(C/E) 5 crafted armored seeds with body lines of 96/97/100/101 characters and header lines whose \": \" and value straddle the 100-octet fragment boundary of armor.Decode's reader")
 	c.Assume("the prompt function gives up (returns an error) after 3 calls: ReadMessage is documented to call it forever otherwise; keyrings passed to ReadMessage/CheckDetachedSignature are trusted (fixture) keys; a CPU loop that performs no Read call would hang the run instead of being reported")
+	if f := os.Getenv("C45_PROBE_FILE"); f != "" {
+		probe(c, f) // child process: one input through every entry point under a CPU-time limit; never returns
+	}
 	go watchdog(c)
 	e := newEnv(c)
 	if e == nil {
@@ -99,24 +104,84 @@ func (e *env) report() {
 	}
 }
 
-// watchdog is NOT an oracle: no violation is ever derived from time. A parser loop that performs
-// no Read call cannot be seen by the step budget and would make the run hang forever; once the
-// run's own time budget has expired (the run is then "not exhaustive" anyway) and some call has
-// been in flight for more than five further minutes, the stuck inputs are printed and the
-// process ends with status 3 (inconclusive) instead of never ending.
+// probeCPUSeconds is the CPU time (not wall time) a single input may consume in the probe
+// child before the kernel kills it. The same inputs take microseconds to milliseconds.
+const probeCPUSeconds = 120
+
+// probe runs in a child process: the given input goes through every entry point with every
+// reader behaviour and drain size, under RLIMIT_CPU. Ending normally means "returns"; being
+// killed by the limit is the parent's proof of non-termination (CPU time is independent of
+// how loaded the machine is, so this is not a wall-clock oracle).
+func probe(c *vf.Ctx, file string) {
+	syscall.Setrlimit(syscall.RLIMIT_CPU, &syscall.Rlimit{Cur: probeCPUSeconds, Max: probeCPUSeconds + 5})
+	input, err := os.ReadFile(file)
+	if err != nil {
+		os.Exit(4)
+	}
+	e := newEnv(c)
+	if e == nil {
+		os.Exit(4)
+	}
+	for mode := 0; mode < readerModes; mode++ {
+		for _, buf := range drainSizes {
+			e.allMode(input, buf, mode, func() string { return "probe" })
+		}
+	}
+	os.Exit(0)
+}
+
+// watchdog: a parser loop that performs no Read call cannot be seen by the step budget and
+// would make the run hang forever. A call that has been in flight for 90 s is re-run in a
+// child process under a CPU-time limit (see probe); if the kernel kills the child for using
+// more than probeCPUSeconds of CPU on that one input, the call does not terminate: a violation
+// is recorded and the run ends (it could never complete). A child that returns normally only
+// means the box is slow; the call is left alone. If the run's own budget has expired and a
+// call is still in flight 5 minutes later although its probe returned, the run ends
+// INCONCLUSIVE (status 3) as before.
 func watchdog(c *vf.Ctx) {
+	probed := map[*flight]bool{}
+	self, _ := os.Executable()
 	for {
-		time.Sleep(20 * time.Second)
+		time.Sleep(15 * time.Second)
+		var old []*flight
+		inflight.Range(func(_, v any) bool {
+			if f := v.(*flight); time.Since(f.start) > 90*time.Second {
+				old = append(old, f)
+			}
+			return true
+		})
+		for _, f := range old {
+			if probed[f] {
+				continue
+			}
+			probed[f] = true
+			tmp, err := os.CreateTemp("", "c45probe")
+			if err != nil {
+				continue
+			}
+			tmp.Write(f.input)
+			tmp.Close()
+			cmd := exec.Command(self, c.Tier)
+			cmd.Env = append(os.Environ(), "C45_PROBE_FILE="+tmp.Name())
+			err = cmd.Run()
+			os.Remove(tmp.Name())
+			if ee, ok := err.(*exec.ExitError); ok {
+				if ws, ok := ee.Sys().(syscall.WaitStatus); ok && ws.Signaled() && (ws.Signal() == syscall.SIGXCPU || ws.Signal() == syscall.SIGKILL) {
+					c.Violation(f.entry+" (or another entry point) does not return: the input keeps a parser busy for more than "+fmt.Sprint(probeCPUSeconds)+" s of CPU time", map[string]any{
+						"input_hex": fmt.Sprintf("%x", clip(f.input, 2000)), "input": f.what(), "octets": len(f.input), "first_stuck_entry": f.entry})
+					c.Abort("a call under test does not return (proven by the CPU-time-limited probe)")
+				}
+			}
+		}
 		if !c.Expired() {
 			continue
 		}
 		var stuck []*flight
-		inflight.Range(func(_, v any) bool {
-			if f := v.(*flight); time.Since(f.start) > 5*time.Minute {
+		for _, f := range old {
+			if time.Since(f.start) > 5*time.Minute {
 				stuck = append(stuck, f)
 			}
-			return true
-		})
+		}
 		if len(stuck) == 0 {
 			continue
 		}
